@@ -25,6 +25,18 @@ CHECKS = {
    note='Assumes an IEEE-754 host in round-to-nearest without excess precision and ISO C Annex F libm; NaN payload propagation of the '
         'C compiler for -x/fabs/copysign is trusted. U64->float rounding direction is implementation-defined in C (noted, not decided).',
    ref='DESIGN.md 4/C02'),
+ 'C03': dict(
+   technique='partial evaluation of the control-flow emitters on instruction scripts (the inductive steps of the slot invariant) + ignore-mode equivalence over the whole opcode table',
+   text='Label placement (block/if after the body, loop before), the move of a carried value into the slot at the label\'s entry height '
+        'for br/br_if/br_table/return at two stack heights with extra operands below, restoration of the type-stack height and label '
+        'stack after each construct, if/else arms writing the same result slot, revival of emission after dead code (including an arm '
+        'that ends in br/return/unreachable), br_table case order and default, select/drop/local.get/set/tee roles, local index to type '
+        'resolution, zero-initialised declared locals, declarations before statements and the L0/return epilogue. For every one of the '
+        '~190 instructions of the oracle table: in dead code it emits nothing, keeps the stack and consumes exactly the immediates it '
+        'consumes in live code.',
+   note='The induction over arbitrary nestings is not mechanised: these are its base and step cases at sampled heights/types '
+        '(slot indices are affine in the height). C goto/switch semantics and module validity are assumed.',
+   ref='DESIGN.md 4/C03'),
  'C05': dict(
    technique='partial evaluation of emitters (both offset variants) + typed-template address rules; path summaries of runtime functions with ordered memory-touch traces',
    text='For all 23 load/store encodings: the address argument is a 64-bit unsigned sum of the zero-extended address slot and the '
@@ -36,6 +48,17 @@ CHECKS = {
    note='In-bounds accesses only (as the property); host memcpy/memmove/memset trusted; page arithmetic for all deltas decided '
         'only as guard presence/position; max==0 sentinel for "no maximum" is noted, not decided. Little-endian configuration (big-endian is C19).',
    ref='DESIGN.md 4/C05'),
+ 'C06': dict(
+   technique='partial evaluation of the module-level emitters on a family of concrete module shapes; structural analysis of the emitted C (defined vs called initialisers, order, reachability of segment loads, instance record, import binding, exports)',
+   text='For 90 module shapes (defined/imported/no memory x table, globals with imported-global initialisers, active/passive data '
+        'segments, element segments, start): Instantiate and NewChild call exactly the Init functions that are defined, in the order '
+        'imports, memories+data, tables+elements, globals, start (once, last); every active data segment has a LOAD_DATA into the right '
+        '(defined or imported) memory reachable from Instantiate; element stores target the right table with offset+k and module-level '
+        'function identifiers. The instance record holds imports as pointers and defined state by value, no mutable file-scope state is '
+        'emitted, imports are bound via resolve("module","name") with the right pointer type, globals are initialised through imported '
+        'pointers, non-shared memories are allocated per instance and shared ones inherited, export wrappers and the FuncExports table are exact.',
+   note='What the embedder\'s resolver returns, allocation failure and calloc semantics are outside the analysis.',
+   ref='DESIGN.md 4/C06'),
  'C07': dict(
    technique='partial evaluation of the emitter + exact predicate abstraction over bit fields; AST format/type rules',
    text='Decides statically, for all 2^32/2^64 immediates, that the translator\'s float classification tree equals the '
